@@ -176,6 +176,11 @@ func propC13Writers(t *rapid.T) {
 	under := &memSink{}
 	size := rapid.SampledFrom([]int{0, 1, 16, 4096, 256 * 1024}).Draw(t, "bufferSize")
 	bws := &zapcore.BufferedWriteSyncer{WS: under, Size: size, FlushInterval: time.Hour}
+	if rapid.IntRange(0, 2).Draw(t, "stoppedBeforeFirstUse") == 0 {
+		if err := bws.Stop(); err != nil { // nothing to stop yet; the syncer works as usual afterwards
+			t.Fatalf("Stop of an unused BufferedWriteSyncer: %v", err)
+		}
+	}
 	n, err = wr("BufferedWriteSyncer", bws, p)
 	chk("BufferedWriteSyncer", n, err)
 	n, err = wr("BufferedWriteSyncer", bws, p)
